@@ -53,7 +53,7 @@ def validate_then_mutate(ctx, F, cg, RULE, kinds=("node-add", "node-kill", "prop
         ctx.saw_fn(r["path"]); ctx.saw_calls(len(b.calls()))
         muts = mp.mutation_points(F, cg, b, mgr)
         errs = mp.error_exits(b)
-        bad = mp.errors_after_mutation(b, muts, errs)
+        bad = mp.errors_after_mutation(b, muts, errs, F, cg)
         if not bad:
             ctx.ok(RULE, n, "%d mutation point(s), %d error exit(s): every error exit precedes the first mutation" % (len(muts), len(errs)))
             continue
@@ -575,3 +575,114 @@ def flag_selected_accumulators(ctx, F, cg, RULE, module="samyama::query::executo
                 else:
                     ctx.violation(RULE, key + "|int-total-dropped", where(r, cl),
                                   "%s may turn `%s` false without folding `%s` into `%s`: the reader then returns `%s` alone and the integer part of the total is lost (mixed Integer/Float inputs)" % (short, fl, ia, fa, fa))
+
+
+def ddl_operators_all_or_nothing(ctx, F, cg, RULE, floor=5):
+    """A schema statement (CREATE / DROP INDEX, CREATE CONSTRAINT, vector / composite / hierarchy index) runs once,
+    not row by row: its operator validates before it registers anything — no error exit is reachable from a
+    store-mutating call of its next_mut."""
+    mgr = mp.manager_writers(F)
+    n = 0
+    for p, r in sorted(F.fns.items()):
+        if not (r.get("trait") and r["trait"].endswith("PhysicalOperator") and p.endswith("::next_mut")):
+            continue
+        st = (r.get("self") or "").rsplit("::", 1)[-1]
+        if not any(w in st for w in ("Index", "Constraint")) or "Scan" in st:
+            continue
+        m = F.mir(p)
+        if not m:
+            continue
+        b = Body(m, r)
+        muts = mp.store_mutating_calls(F, cg, b, mgr)
+        if not muts:
+            continue
+        n += 1
+        ctx.saw_fn(p); ctx.saw_calls(len(b.calls()))
+        errs = mp.error_exits(b)
+        bad = mp.errors_after_mutation(b, muts, errs, F, cg)
+        if not bad:
+            ctx.ok(RULE, st, "%d store-mutating call(s), %d error exit(s): every error exit precedes the first mutation" % (len(muts), len(errs)))
+            continue
+        seen = set()
+        for (mb, ml, mw), (eb, el, ew) in bad:
+            if mw in seen:
+                continue
+            seen.add(mw)
+            ctx.violation(RULE, "%s|error-after-mutation|%s" % (st, mw), where(r, el),
+                          "%s can fail (%s at line %d) after it %s (line %d): the refused statement leaves the index / constraint registered or partly filled" % (st, ew, el, mw, ml))
+    ctx.floor(RULE, "schema operators with a store-mutating call", n, floor)
+
+
+def no_half_built_node(ctx, F, cg, RULE, module="samyama::query::executor::", floor=4):
+    """After a write operator has created a node for the current row, a failure while filling it in (property
+    refused by a constraint, expression error) must not leave the node behind: every error exit reachable from
+    a create_node* call passes delete_node of the store first."""
+    n = 0
+    for p, r in sorted(F.fns.items()):
+        if "::tests::" in p or not in_module(p, module):
+            continue
+        if not any(c.startswith(GS + "::create_node") for c in r["calls"]):
+            continue
+        m = F.mir(p)
+        if not m:
+            continue
+        b = Body(m, r)
+        creates = [c for c in b.calls() if c.path.startswith(GS + "::create_node")]
+        dels = {c.bb for c in b.calls() if c.path == GS + "::delete_node"}
+        errs = mp.error_exits(b)
+        short = p.replace("samyama::query::executor::operator::", "").replace(module, "").replace("<", "").replace(">", "")
+        ctx.saw_fn(p)
+        for k, c in enumerate(creates):
+            n += 1
+            if c.target is None:
+                continue
+            # error exits reachable from the creation without passing delete_node, before the next row is pulled
+            nexts = {x.bb for x in b.calls() if x.path.endswith("PhysicalOperator::next_mut") or x.path.endswith("PhysicalOperator::next_batch_mut")}
+            free = b.reachable(c.target, avoid=dels | nexts)
+            leaks = {}
+            for eb, el, ew in errs:
+                if eb not in free:
+                    continue
+                src = _failing_callee(b, eb)
+                if src in ("get_node", "get_edge", "get"):
+                    continue        # "the entity just created is not there": cannot happen, nothing to undo
+                # ordinal of the failing call among the calls of that callee in this body (source order)
+                leaks.setdefault(src, el)
+            inst = "%s|create_node|%d" % (short, k)
+            if leaks:
+                for src, el in sorted(leaks.items()):
+                    ctx.violation(RULE, inst + "|left-behind-when-%s-fails" % src, where(r, el),
+                                  "%s can return the error of %s (line %d) after creating a node for the current row without deleting it again: the failed statement leaves a node with no or partial properties, indexed under its labels" % (short, src, el))
+            else:
+                ctx.ok(RULE, inst, "every error exit after the creation passes delete_node (or there is none)")
+    ctx.floor(RULE, "node creations in write operators", n, floor)
+
+
+def _failing_callee(b, err_block):
+    """name of the call whose failure an error exit propagates (through branch / map_err / ok_or...), or 'explicit-Err'"""
+    for c in b.calls():
+        if c.bb == err_block and c.path.endswith("from_residual") and c.args and c.args[0][0] != "k":
+            og = b.origins(c.args[0][1][0], through_calls=lambda cc: [0] if cc.path.rsplit("::", 1)[-1] in ("branch", "map_err", "ok_or", "ok_or_else", "into", "from", "map") else None)
+            names = [o[1].path.rsplit("::", 1)[-1] for o in og if o[0] == "call"]
+            via = [o[1] for o in og if o[0] == "via"]
+            if names:
+                return names[0]
+            # ok_or on an Option produced by a call: name that call
+            for v in via:
+                if v.path.rsplit("::", 1)[-1] in ("ok_or", "ok_or_else") and v.args and v.args[0][0] != "k":
+                    og2 = b.origins(v.args[0][1][0], through_calls=lambda cc: None)
+                    n2 = [o[1].path.rsplit("::", 1)[-1] for o in og2 if o[0] == "call"]
+                    if n2:
+                        return n2[0]
+            return "unknown-call"
+    return "explicit-Err"
+
+
+def _failing_call_line(b, err_block):
+    for c in b.calls():
+        if c.bb == err_block and c.path.endswith("from_residual") and c.args and c.args[0][0] != "k":
+            og = b.origins(c.args[0][1][0], through_calls=lambda cc: [0] if cc.path.rsplit("::", 1)[-1] in ("branch", "map_err", "ok_or", "ok_or_else", "into", "from", "map") else None)
+            for o in og:
+                if o[0] == "call":
+                    return o[1].line
+    return None
